@@ -126,9 +126,10 @@ def write_if_changed(path, text):
 def ensure_makefile():
     proj = '-Q . %s\n-arg -w -arg -notation-overridden,-deprecated,-ambiguous-paths\n' % LOGICAL + \
         '\n'.join(coq_files()) + '\n'
+    os.makedirs(BUILD, exist_ok=True)
     changed = write_if_changed(os.path.join(COQ, '_CoqProject'), proj)
     if changed or not os.path.exists(os.path.join(COQ, 'Makefile')):
-        rc, out = sh('coq_makefile -f _CoqProject -o Makefile', cwd=COQ)
+        rc, out = sh('flock %s coq_makefile -f _CoqProject -o Makefile' % os.path.join(BUILD, '.makefile.lock'), cwd=COQ)
         if rc != 0:
             raise RuntimeError('coq_makefile failed:\n' + out)
 
@@ -156,13 +157,16 @@ def regenerate_gen(pid):
 def make_target(target, jobs=16, timeout=3000):
     os.makedirs(BUILD, exist_ok=True)
     lock = os.path.join(BUILD, '.make.%s.lock' % re.sub(r'\W', '_', target or 'all'))
+    # refresh the dependency file under one global lock so that concurrent checks never
+    # rewrite .Makefile.d at the same time
+    sh('flock %s timeout 300 make .Makefile.d 2>&1' % os.path.join(BUILD, '.makefile.lock'), cwd=COQ, timeout=400)
     cmd = 'flock %s timeout %d make -j%d %s 2>&1' % (lock, timeout, jobs, target)
     return sh(cmd, cwd=COQ, timeout=timeout + 600)
 
 
-def scan_forbidden():
+def scan_forbidden(files=None):
     hits = []
-    for rel in coq_files():
+    for rel in (files if files is not None else coq_files()):
         with open(os.path.join(COQ, rel)) as f:
             body = strip_coq_comments(f.read())
         for m in BAD_WORDS.finditer(body):
@@ -254,12 +258,14 @@ def check_proofs(pid, res):
         problems.append('Gen/G%s.v could not be regenerated from /repo: %s' % (
             pid[1:], ''.join(traceback.format_exception_only(type(e), e)).strip()))
     ensure_makefile()
-    hits = scan_forbidden()
+    deps = deps_of(rel)
+    # the whole dependency cone of the property file and of the model runner is scanned
+    cone = sorted(set(deps) | set(deps_of('Run/%s.v' % pid)))
+    hits = scan_forbidden([d for d in cone if os.path.exists(os.path.join(COQ, d))])
     if hits:
         problems.append('forbidden vernacular in development: ' + ', '.join(hits[:10]))
     rc, out = make_target(rel + 'o')
     info['make_rc'] = rc
-    deps = deps_of(rel)
     lemma_files = [d for d in deps if d.startswith('Proofs/') or d.startswith('Props/')]
     all_lemmas = {d: count_lemmas(d) for d in lemma_files}
     info['obligations'] = sum(len(v) for v in all_lemmas.values())
